@@ -98,7 +98,7 @@ def build_scenarios(singles, pairs, tier):
     # window / burst / cwnd / RTO grid with schedules that delay or repeatedly lose DATA (the receiver buffers
     # out-of-order data, its advertised window shrinks towards zero) or hold SACKs
     data_faults = [p for p in pairs if all(f["dir"] == "A" and f["k"] == "DATA" and f["kind"] in ("drop", "hold") for f in p)]
-    sack_faults = [p for p in pairs if all(f["dir"] == "B" and f["k"] == "SACK" and f["kind"] in ("drop", "hold") for f in p)]
+    sack_faults = [p for p in pairs if all(f["dir"] == "B" and f["k"] in ("SACK", "GSACK") and f["kind"] in ("drop", "hold") for f in p)]
     grid = []
     for rwnd in (4096, 16384, 65536):
         for burst in (0, 1, 4, 16):
